@@ -18,6 +18,11 @@ def gen_case(ctx, g):
     if r.random() < 0.25 and B:      # ragged B: a record lacking a key field -> runtime error naming the B record
         i = r.randrange(len(B))
         B[i] = B[i][:r.randint(0, len(B[i]))]
+    if r.random() < 0.2 and len(B) >= 2:
+        # ragged B whose FIRST record is not the widest (every key field still there): the all-None record of LEFT JOIN is as wide as
+        # the WIDEST join record, wherever it stands (seeded change C04-2: width taken from the first record)
+        i = r.randrange(1, len(B))
+        B[i] = B[i] + [r.choice(KEYS) for _ in range(r.randint(1, 2))]
     if r.random() < 0.2 and A:
         i = r.randrange(len(A))
         A[i] = A[i][:r.randint(0, len(A[i]))]
